@@ -225,9 +225,31 @@ def main(argv):
     return 0
 
 
+def lemma_base(prop, tier):
+    """state of the Lean lemma base the sum normaliser relies on: the committed STAMP must match the lemma file; the
+    thorough tier of the properties that instantiate the lemmas (C01, C05) re-runs Lean on it"""
+    import hashlib
+    import subprocess
+    d = os.path.join(HERE, 'lemmas')
+    try:
+        sha = hashlib.sha256(open(os.path.join(d, 'SumLemmas.lean'), 'rb').read()).hexdigest()
+        stamp = open(os.path.join(d, 'STAMP')).read().split()
+        out = dict(file='lemmas/SumLemmas.lean', sha256=sha, stamp_matches=bool(stamp) and stamp[0] == sha)
+    except Exception as e:
+        return dict(error=str(e))
+    if tier == 'thorough' and prop in ('C01', 'C05'):
+        try:
+            r = subprocess.run([os.path.join(HERE, 'tools', 'check_lemmas.sh')], capture_output=True, text=True, timeout=1500)
+            out['lean_recheck'] = 'ok' if r.returncode == 0 else 'FAILED: ' + (r.stdout + r.stderr)[-300:]
+        except Exception as e:
+            out['lean_recheck'] = 'not run: %s' % e
+    return out
+
+
 def write_evidence(prop, tier, seed, info, e1s, rec, samples, assumptions, undecided, nviol, wall):
     level = info['level']
     cov = {}
+    cov['lemma_base'] = lemma_base(prop, tier)
     if rec is not None:
         cov.update(rec.summary())
     else:
